@@ -62,6 +62,10 @@ type RefReplica struct {
 	// ones that were actually written).
 	Written     []pb.State
 	WrittenSnap []uint64
+	// PreRemoval is what the replica held when RemoveNodeData was acknowledged.
+	// The properties demand durability of saves, not of removals, so after a
+	// crash a removed replica may be back (wholly or record by record).
+	PreRemoval *RefReplica
 }
 
 // NewRefStore creates an empty model.
@@ -214,7 +218,11 @@ func (r *RefReplica) ApplyRemoveEntriesTo(index uint64) {
 // ApplyRemoveNodeData applies RemoveNodeData.
 func (r *RefReplica) ApplyRemoveNodeData() {
 	id := r.ID
-	*r = RefReplica{ID: id, Removed: true, Ghost: map[uint64]pb.Entry{}}
+	pre := r.PreRemoval
+	if !r.Removed {
+		pre = r.Clone()
+	}
+	*r = RefReplica{ID: id, Removed: true, Ghost: map[uint64]pb.Entry{}, PreRemoval: pre}
 }
 
 // ApplyImport applies ImportSnapshot.
